@@ -136,11 +136,17 @@ var alnumRegexp = regexp.MustCompile("[^a-z0-9 ]")
 // individual names, places, etc as it does not take into account
 // capitalization, punctuation and extra spaces.
 func StringSimilarity(a, b string, boostThreshold float64, prefixSize int) float64 {
-	a = alnumRegexp.ReplaceAllString(strings.ToLower(a), "")
-	b = alnumRegexp.ReplaceAllString(strings.ToLower(b), "")
+	cleanA := CleanSpace(alnumRegexp.ReplaceAllString(strings.ToLower(a), ""))
+	cleanB := CleanSpace(alnumRegexp.ReplaceAllString(strings.ToLower(b), ""))
 
-	cleanA := CleanSpace(a)
-	cleanB := CleanSpace(b)
+	// Names written entirely outside of a-z and 0-9 (another script, or only
+	// punctuation) have nothing left at this point. Two such names are compared
+	// as they are written rather than reported as completely different, so
+	// that a name is still identical to itself.
+	if cleanA == "" && cleanB == "" {
+		cleanA = CleanSpace(a)
+		cleanB = CleanSpace(b)
+	}
 
 	return JaroWinkler(cleanA, cleanB, boostThreshold, prefixSize)
 }
